@@ -11,8 +11,8 @@
 (* transcription ImplResample, first call, meshes of at most DriftCap vertices.*)
 EXTENDS Resample, TraceKit
 
-VARIABLES l, m, par
-vars == <<l, m, par>>
+VARIABLES l, m, par, chn     \* par / chn: the mesh given to the first call had parallel edges / a chain (R6)
+vars == <<l, m, par, chn>>
 
 EPS      == 20          \* 2e-5 in logged units (tissue scaled into +-400): quantisation <= 2 ulp
 DriftCap == 260
@@ -24,13 +24,13 @@ NoMesh   == [nv |-> -1]
 \* the result of the first call is not a fixed point and keeps an interface with more than ne segments.
 HasParallel(mm) == Cardinality({{mm.E[e][1], mm.E[e][2]} : e \in Ed(mm)}) < mm.ne
 
-Init == l = 1 /\ m = NoMesh /\ par = FALSE
+Init == l = 1 /\ m = NoMesh /\ par = FALSE /\ chn = FALSE
 
 DoMesh(e) ==
   /\ e.ev = "Mesh"
   /\ EmitV(e, IF e.raised # "" THEN {"C11.input_raised"} ELSE {}, {}, {}, {}, FALSE)
   /\ m' = IF e.raised # "" THEN NoMesh ELSE e.mesh
-  /\ par' = FALSE
+  /\ par' = FALSE /\ chn' = FALSE
 
 DoResample(e) ==
   /\ e.ev = "Resample"
@@ -42,10 +42,12 @@ DoResample(e) ==
                 ELSE C11Eval(m, e.mesh, e.lk, e.ne, e.rse, EPS)
          idem0 == IF e.again /\ ok /\ m.nv >= 0 /\ "C11.harness_link" \notin v.fails /\ ~Unchanged(m, e.mesh, e.lk)
                   THEN {"C11.idempotent"} ELSE {}
-         idem == IF par THEN {} ELSE idem0
+         \* R6: a chain cannot be contracted interface by interface AND be a fixed point (what is left of it is
+         \* again a two-point border interface): idempotence is not demanded of inputs with a chain
+         idem == IF par \/ chn THEN {} ELSE idem0
          idkf == IF par /\ idem0 # {} THEN {"KF_ParallelEdges:C11.idempotent"} ELSE {}
          c09  == IF ok THEN Consistent(e.mesh) ELSE {}
-         hits == v.hits \cup (IF e.again /\ ok THEN {"C11.idempotent"} ELSE {})
+         hits == v.hits \cup (IF e.again /\ ok /\ ~chn THEN {"C11.idempotent"} ELSE {})
                         \cup (IF v.chain THEN {"C11.chain_input"} ELSE {})
          drift == IF m.nv < 0 \/ m.nv > DriftCap \/ e.again \/ v.rejected \/ "C11.harness_link" \in v.fails THEN {}
                   ELSE ImplDrift(m, IF ok THEN e.mesh ELSE NoMesh, IF ok THEN e.arr ELSE <<>>, e.raised,
@@ -53,6 +55,7 @@ DoResample(e) ==
      IN  EmitV(e, v.fails \cup idem \cup c09, v.kf \cup idkf, hits, drift, v.rejected)
   /\ m' = IF e.raised # "" THEN NoMesh ELSE e.mesh
   /\ par' = IF e.again THEN par ELSE (m.nv >= 0 /\ HasParallel(m))
+  /\ chn' = IF e.again THEN chn ELSE (m.nv >= 0 /\ ChainInput(m, e.ne, e.rse))
 
 Next == /\ l <= Len(TR)
         /\ LET e == TR[l] IN DoMesh(e) \/ DoResample(e)
